@@ -90,7 +90,7 @@ impl ConfigRoute {
                     config_type: req.config_type,
                     desc: req.desc,
                 };
-                self.config_addr.send(cmd).await?.ok();
+                self.config_addr.send(cmd).await??;
             }
             RouteAddr::Remote(_, addr) => {
                 let source_req = req.clone();
@@ -116,7 +116,7 @@ impl ConfigRoute {
         match self.raft_addr_route.get_route_addr().await? {
             RouteAddr::Local => {
                 let cmd = ConfigAsyncCmd::Delete(req.config_key);
-                self.config_addr.send(cmd).await?.ok();
+                self.config_addr.send(cmd).await??;
             }
             RouteAddr::Remote(_, addr) => {
                 let req: RouterRequest = req.into();
